@@ -241,7 +241,7 @@ func vf12GenCase13(t *rapid.T, o *vfOffer) *vf12Case {
 			return nil
 		}
 		s.CompressAlg = v
-		s.CompressFn = func(m []byte) ([]byte, uint32) { return vf12Compress(v, m), uint32(len(m)) }
+		s.CompressFn = func(m []byte) ([]byte, uint32) { return vfCompressCert(v, m), uint32(len(m)) }
 		c.Desc = fmt.Sprintf("CompressedCertificate with algorithm %d; advertised %v", v, h.CertCompAlgs())
 	}
 	return c
